@@ -1291,6 +1291,86 @@ func c19RunInterrupted(lazy int, thorough bool, onlyK int, res *vr.Result, viol 
 	return ""
 }
 
+
+// ---------------------------------------------------------------------------
+// scenario restart: "a restart does not change what clients are served". The
+// cache changes only through its API between a start (which loads dump_file)
+// and the shutdown (which writes it): flushed, then shut down - the next start
+// must come up empty; loaded through the API, then shut down - the next start
+// must come up with what was loaded.
+
+func c19RunRestart(dir string, lazy int, res *vr.Result, viol func(sig, desc string, in any)) (infra string) {
+	cf := c19Conf{N: 5, Lazy: lazy}
+	path := filepath.Join(dir, fmt.Sprintf("restart_%d.bin", lazy))
+	var afterFlush, afterLoad []byte
+	var errFlush, errLoad error
+	var snapLoad map[string]c19Snap
+	var liveAtFlushShutdown int
+	x := vs.Run1(c19Cfg, func() {
+		id, _ := vs.CurThread()
+		args := func() *Args {
+			return &Args{Size: c19CurSize, LazyCacheTTL: lazy, DumpFile: path, DumpInterval: 3600}
+		}
+		a, _, _ := c19Populate(cf, id, args())
+		_, full := c19Get(a)
+		a.Close() // first shutdown: the file holds the five entries
+		res.Transitions++
+		b := NewCache(args(), Opts{}) // restart: loads them
+		c19Yield()
+		b.Api().ServeHTTP(httptest.NewRecorder(), httptest.NewRequest(http.MethodGet, "/flush", nil))
+		liveAtFlushShutdown = c19Live(c19Snapshot(b))
+		b.Close() // shutdown of an empty cache
+		res.Transitions++
+		afterFlush, errFlush = os.ReadFile(path)
+		os.Remove(path)
+		c := NewCache(args(), Opts{}) // a fresh instance without a file
+		c19Yield()
+		c19Post(c, full)
+		snapLoad = c19Snapshot(c)
+		c.Close()
+		res.Transitions++
+		afterLoad, errLoad = os.ReadFile(path)
+	})
+	if x.Panic != "" {
+		viol("restart/panic", x.Panic, nil)
+		return ""
+	}
+	if !x.Quiescent || x.Livelock {
+		return fmt.Sprintf("restart: did not end cleanly: blocked=%v", x.Blocked)
+	}
+	check := func(name string, d []byte, rerr error, snap map[string]c19Snap, wantLive int) {
+		res.Evaluations++
+		if rerr != nil {
+			res.Outcome("restart/NO-FILE")
+			viol("restart/no-dump-on-shutdown", name+": the shutdown left no dump file: "+rerr.Error(), nil)
+			return
+		}
+		ld := c19LoadAt(c19DumpAt, lazy, d)
+		in := c19FileIn{Scenario: "restart", Name: name, AtNs: int64(c19DumpAt), File: c19B64(d)}
+		switch {
+		case ld.Infra != "":
+			infra = ld.Infra
+		case ld.Panic != "":
+			viol("restart/panic", name+": loading the file panicked: "+ld.Panic, in)
+		case ld.Status != 200:
+			viol("restart/dump-unreadable", fmt.Sprintf("%s: the file cannot be loaded: %d %s", name, ld.Status, ld.Body), in)
+		case len(ld.Entries) < wantLive:
+			res.Outcome("restart/ENTRIES-LOST")
+			viol("restart/entries-lost", fmt.Sprintf("%s: the cache held %d live entries at shutdown, the next start comes up with %d", name, wantLive, len(ld.Entries)), in)
+		default:
+			if diff, _ := c19Subset(ld.Entries, snap); diff != "" {
+				res.Outcome("restart/RESURRECTED")
+				viol("restart/entries-differ", fmt.Sprintf("%s: the cache held %d entries at shutdown, the next start comes up with %d: %s", name, len(snap), len(ld.Entries), diff), in)
+			} else {
+				res.Outcome("restart/ok")
+			}
+		}
+	}
+	check("start (loads 5 entries), flush through the API, shutdown", afterFlush, errFlush, map[string]c19Snap{}, liveAtFlushShutdown)
+	check("start without a file, 5 entries loaded through the API, shutdown", afterLoad, errLoad, snapLoad, c19Live(snapLoad))
+	return infra
+}
+
 // ---------------------------------------------------------------------------
 // scenario dumpfile: periodic dump to Args.DumpFile, crash points of that file
 
@@ -1999,6 +2079,14 @@ func TestVerifC19(t *testing.T) {
 			continue
 		}
 		if infra := c19RunRepeated(t.TempDir(), lazy, res, viol); infra != "" && res.Infra == "" {
+			res.Infra = infra
+		}
+	}
+	for i, lazy := range lazies {
+		if !e.Mine(int64(i+3)) || expired() {
+			continue
+		}
+		if infra := c19RunRestart(t.TempDir(), lazy, res, viol); infra != "" && res.Infra == "" {
 			res.Infra = infra
 		}
 	}
